@@ -31,7 +31,7 @@ RULE = ("(i) frame monitor around every call: __setattr__/__delattr__ tap on the
         "p in {0.01,0.05,0.2}, switch interval 1e-5 s; each call compared bit for bit with its history-free result; and a "
         "SYSTEMATIC single-preemption sweep: for pairs of conflicting calls (A, B) thread A is suspended at every distinct "
         "statement boundary it passes through (plus sampled later loop iterations), B runs to completion on the same model, A "
-        "resumes - every interleaving with one preemption of A at statement granularity, both results compared bit for bit. "
+        "resumes - every interleaving with one preemption of A at statement granularity, both results compared bit for bit; the same sweep from a COLD start (the library freshly imported before every run, so that the first-use publication of lazily built module-level state is inside the race; afterwards the calls are repeated one after another in the state the race left behind). "
         "Non-trivial: a call preceded (sequentially or concurrently) by a call with different per-call options; "
         "distinct by hash of (sequence, position) / (round, thread, position).")
 ASSUMPTIONS = ["thread interleavings are sampled, not enumerated; the write tap detects the mechanism of schedule "
@@ -45,7 +45,7 @@ def floors(tier):
     q = tier == "quick"
     return {"frame/no-write": 6000 if q else 600000, "history-free": 6000 if q else 600000,
             "history-free/feedback": 4000 if q else 400000, "history-free/after-failing-call": 300 if q else 30000,
-            "threads/call": 1500 if q else 160000, "preempt/run": 3000 if q else 200000, "hashseed/digest": 3 if q else 5,
+            "threads/call": 1500 if q else 160000, "preempt/run": 3000 if q else 200000, "cold-preempt/run": 100 if q else 30000, "hashseed/digest": 3 if q else 5,
             "process-order/call": 2000 if q else 60000}
 
 
@@ -139,6 +139,45 @@ def generate(ctx):
         if b["op"] == "rate":
             b["call"] = dict(tau=ctx.rng.choice([10 * cfg["beta"], 1e-3 * cfg["beta"]]), limit_sigma=False)
         yield "preempt", dict(model=m, cfg=cfg, a=a, b=b, extra=ctx.rng.randrange(2 ** 30))
+    combos = [(m_, k_) for m_ in MODEL_NAMES for k_ in ("predict_win", "predict_draw", "predict_rank", "rate")]
+    ncold = 20 if ctx.tier == "quick" else ctx.budget(20, 1600) * ctx.nshards
+    for ci in range(ctx.shard, ncold, ctx.nshards):
+        # every (model, operation) combination in turn: first-use state is per code path, so the quick tier covers all 20
+        # whatever the budget scale
+        m, kind = combos[ci % len(combos)]
+        cfg = gen.gen_cfg(ctx.rng)
+        ops = []
+        while len(ops) < 6:
+            o = gen_ops(ctx.rng, cfg, 1, kmax=5, pmax=3)[0]
+            if kind == "mixed" or o["op"] == kind:
+                ops.append(o)
+        a, b = ops[0], ops[1]
+        if ctx.rng.random() < 0.5 and a["op"] != "rate":
+            # the same number of teams in both calls (a table indexed by team count) but other players
+            while len(b["teams"]) != len(a["teams"]) or b["op"] == "rate":
+                b = gen_ops(ctx.rng, cfg, 1, kmax=5, pmax=3)[0]
+            b = dict(b, op=a["op"])
+        # follow-up calls made one after another in the state the race left behind: one game for every total player count
+        # 2..13 (in 2..5 teams), so that whichever slot of a per-size table was corrupted is read afterwards
+        follow = list(ops[2:4])
+        for total in range(2, 14):
+            k = ctx.rng.randint(2, min(5, total))
+            cuts = sorted(ctx.rng.sample(range(1, total), k - 1))
+            sizes = [b_ - a_ for a_, b_ in zip([0] + cuts, cuts + [total])]
+            f = gen_ops(ctx.rng, cfg, 1, kmax=5, pmax=3)[0]
+            while f["op"] != a["op"]:
+                f = gen_ops(ctx.rng, cfg, 1, kmax=5, pmax=3)[0]
+            proto = [p for t in f["teams"] for p in t]
+            teams, n_ = [], 0
+            for sz in sizes:
+                teams.append([[proto[(n_ + j) % len(proto)][0], proto[(n_ + j) % len(proto)][1], f"u{n_ + j}"] for j in range(sz)])
+                n_ += sz
+            f = dict(f, teams=teams)
+            if f["op"] == "rate":
+                lv = gen.weak_order(ctx.rng, k)
+                f["sel"], f["vals"], _ = gen.outcome_kwargs(ctx.rng, lv, style="int")
+            follow.append(f)
+        yield "cold", dict(model=m, cfg=cfg, a=a, b=b, follow=follow, extra=ctx.rng.randrange(2 ** 30))
     rounds = ctx.budget(60, 6000)
     for _ in range(rounds):
         m = ctx.rng.choice(MODEL_NAMES)
@@ -587,7 +626,160 @@ def probe_preempt(ctx, payload):
                         trace_events=len(trace), distinct_statement_boundaries=len(first), preempted_runs=len(ks)))
 
 
-PROBES = {"seq": probe_seq, "threads": probe_threads, "fb": probe_fb, "preempt": probe_preempt}
+# ------------------------------------------------------------------------------------------- cold-start preemption
+def _purge_library():
+    """forget the library: the next import builds every module-level object (lazily filled tables, memo dicts, caches)
+    anew, as in a process that has not used the library yet"""
+    from .. import attach, util
+
+    for n in [n for n in sys.modules if n.split(".")[0] == "openskill"]:
+        del sys.modules[n]
+    attach._RC = None
+    attach._taps_installed = False
+    attach._corr_wrapped = False
+    util._SUBCLASSES.clear()
+    import openskill.models  # noqa: F401
+
+    attach.install_taps()
+    attach.is_rating(None)  # the harness's own lazy set-up (it constructs a model and a rating of each class) stays outside the traces
+    return models()
+
+
+def cold_run(payload, tier):
+    """(runs in its own subprocess)  The single-preemption sweep of probe_preempt, but every run starts from a freshly
+    imported library: the FIRST use of the library in a process is where lazily built module-level state is published,
+    and two threads making their first calls together is an ordinary start-up pattern (a web worker's first requests).
+    After each preempted pair the same calls and a few others are made again one after another in the same state, so a
+    table corrupted by the race is seen even if the two racing calls themselves came out right."""
+    from .. import sched
+
+    model_name, cfg, opa, opb, follow = payload["model"], payload["cfg"], payload["a"], payload["b"], payload["follow"]
+
+    def call(model, teams, op, box):
+        def run():
+            o = observe(model, op["op"], teams, **_kw(op)) if op["op"] == "rate" else observe(model, op["op"], teams)
+            nums = None
+            if o.exc is None:
+                try:
+                    nums = _numbers(op, o.res)
+                except Exception as e:  # noqa: BLE001
+                    o.exc = e
+            box.append((o.exc, nums, list(o.writes), attrs_changed(o)))
+        return run
+
+    def seq_values(Ms, model):
+        out = []
+        for op in [opa, opb] + follow:
+            box = []
+            call(model, _mk_teams(model, op), op, box)()
+            out.append(box[0])
+        return out
+
+    # expected values: the same calls one after another in a freshly imported library (cold trace of A first)
+    Ms = _purge_library()
+    install_taps()
+    model = league.make_model(model_name, cfg, Ms)
+    pre = sched.Preempt()
+    box = []
+    trace = pre.trace(call(model, _mk_teams(model, opa), opa, box))
+    if not trace:
+        return dict(error="no LINE events observed for call A")
+    want_a = box[0][1]
+    box = []
+    call(model, _mk_teams(model, opb), opb, box)()
+    want_b = box[0][1]
+    want_seq = [x[1] for x in seq_values(Ms, model)]
+    first = {}
+    for i, ev in enumerate(trace):
+        first.setdefault(ev, i + 1)
+    # WARM trace of the same call in the same (now used) state: statements that the cold run executed and the warm run
+    # does not (or executes less often) are the first-use code - lazily built tables, memo fills, one-time set-up.  Every
+    # occurrence of such a statement, and the statement after it, is a preemption point; plus a sample of the others.
+    from collections import Counter
+
+    box2 = []
+    warm = pre.trace(call(model, _mk_teams(model, opa), opa, box2))
+    surplus = Counter(trace)
+    surplus.subtract(Counter(warm))
+    cold_only = {ev for ev, c in surplus.items() if c > 0}
+    rng = random.Random(payload["extra"])
+    ks_cold = set()
+    for i, ev in enumerate(trace):
+        if ev in cold_only:
+            ks_cold.update((i + 1, i + 2))
+    ks_cold = sorted(k for k in ks_cold if k <= len(trace))
+    if len(ks_cold) > 120:
+        ks_cold = sorted(rng.sample(ks_cold, 120))
+    base = sorted(set(first.values()) - set(ks_cold))
+    nb = 6 if tier == "quick" else 40
+    ks = ks_cold + (sorted(rng.sample(base, nb)) if len(base) > nb else base)
+    viol, points, runs = [], [], 0
+    for k in ks:
+        Ms = _purge_library()
+        install_taps()
+        model = league.make_model(model_name, cfg, Ms)
+        pre = sched.Preempt()
+        ta, tb = _mk_teams(model, opa), _mk_teams(model, opb)
+        ra, rb = [], []
+        at, errors = pre.run(call(model, ta, opa, ra), k, call(model, tb, opb, rb))
+        if errors or not ra or not rb:
+            return dict(error=f"preemption harness failure: {errors[:2]}")
+        runs += 1
+        if at is not None and f"{at[0]}:{at[1]}" not in points:
+            points.append(f"{at[0]}:{at[1]}")
+        for who, (exc, nums, writes, ch), want in (("A", ra[0], want_a), ("B", rb[0], want_b)):
+            if exc is not None:
+                viol.append(dict(clause="cold-preempt/no-return", who=who, k=k, at=at, exc=exc_detail(exc)))
+            elif writes or ch:
+                viol.append(dict(clause="cold-preempt/model-write", who=who, k=k, at=at, writes=[w[:3] for w in writes[:5]]))
+            elif not _same(nums, want):
+                viol.append(dict(clause="cold-preempt/result", who=who, k=k, suspended_at=at, got=(nums or [None])[:6], want=(want or [None])[:6]))
+        # afterwards, one after another in the state the race left behind
+        for j, ((exc, nums, writes, ch), want) in enumerate(zip(seq_values(Ms, model), want_seq)):
+            if exc is not None:
+                viol.append(dict(clause="cold-preempt/later-no-return", call_index=j, k=k, at=at, exc=exc_detail(exc)))
+            elif not _same(nums, want):
+                viol.append(dict(clause="cold-preempt/later-result", call_index=j, k=k, suspended_at=at, got=(nums or [None])[:6], want=(want or [None])[:6]))
+        if len(viol) >= 5:
+            break
+    return dict(runs=runs, points=points, violations=viol, trace_events=len(trace), distinct_boundaries=len(first),
+                first_use_statements=sorted(f"{fn}:{ln}" for fn, ln in cold_only), first_use_points=len(ks_cold))
+
+
+def probe_cold(ctx, payload):
+    env = dict(os.environ, PYTHONHASHSEED="0", PYTHONDONTWRITEBYTECODE="1")
+    p = subprocess.run([sys.executable, "-m", "vmon.checks.c14", "cold", ctx.tier], input=json.dumps(payload), cwd=VERIF, env=env,
+                       capture_output=True, text=True, timeout=1800)
+    if p.returncode != 0 or not p.stdout.strip():
+        raise Inconclusive(f"cold-start subprocess failed: {p.stderr[-400:]}")
+    res = json.loads(p.stdout.strip().splitlines()[-1])
+    if res.get("error"):
+        raise Inconclusive("cold-start sweep: " + res["error"])
+    ctx.ev("cold-preempt/run", res["runs"])
+    ctx.count("cold_preempt_pairs")
+    ctx.count("cold_first_use_preemption_points", res["first_use_points"])
+    fu = ctx.notes.setdefault("first_use_statements", [])
+    for x in res["first_use_statements"]:
+        if x not in fu and len(fu) < 200:
+            fu.append(x)
+    pts = ctx.notes.setdefault("cold_preemption_points", [])
+    for x in res["points"]:
+        if x not in pts and len(pts) < 3000:
+            pts.append(x)
+    ctx.bucket("cold_pair_kinds", f"{payload['a']['op']} x {payload['b']['op']}")
+    seen = set()
+    for v in res["violations"]:
+        if v["clause"] in seen:
+            continue
+        seen.add(v["clause"])
+        ctx.violation(v["clause"], "cold", payload, v, payload["model"], f"cold/{payload['a']['op']}x{payload['b']['op']}")
+    ctx.case(dict(cold=payload["extra"]), True)
+    if len(ctx.samples) < 6 and ctx.rng.random() < 0.5:
+        ctx.sample(dict(kind="cold-start preemption", model=payload["model"], call_a=payload["a"]["op"], call_b=payload["b"]["op"],
+                        fresh_imports=res["runs"], first_use_statements=res["first_use_statements"][:10], distinct_statement_boundaries=res["distinct_boundaries"], trace_events=res["trace_events"]))
+
+
+PROBES = {"seq": probe_seq, "threads": probe_threads, "fb": probe_fb, "preempt": probe_preempt, "cold": probe_cold}
 
 
 # ------------------------------------------------------------------------------------------- hash-seed sweep (driver side)
@@ -721,7 +913,9 @@ def probe_hashseed(ctx, payload):
 PROBES["hashseed"] = probe_hashseed
 PROBES["order"] = probe_order
 
-if __name__ == "__main__" and sys.argv[1] == "order":
+if __name__ == "__main__" and sys.argv[1] == "cold":
+    print(json.dumps(cold_run(json.loads(sys.stdin.read()), sys.argv[2]), default=repr))
+elif __name__ == "__main__" and sys.argv[1] == "order":
     print(json.dumps(order_workload(int(sys.argv[2]), int(sys.argv[3]), sys.argv[4])))
 elif __name__ == "__main__":
     d, n = digest_workload(int(sys.argv[1]), int(sys.argv[2]))
